@@ -85,6 +85,8 @@ def gen_plan(wl, fr, idx):
         plan['prefit_axis'] = wl.choice((0, 1, '01'))
     ntasks = n0 * n1 if plan['axis'] == '01' else (n0 if plan['axis'] == 0 else n1)
     plan['n_jobs'] = wl.choice(sorted({1, 2, 3, ntasks, ntasks + 1}) + [-1])
+    if wl.random() < 0.2:
+        plan['array_variant'] = wl.choice(('fortran', 'strided', 'f32'))
     plan['progress'] = wl.choice((None, None, 'tqdm'))
     plan['tqdm'] = wl.choice(('absent', 'stub'))
     plan['sim'] = gen_sim_cfg(fr, ntasks)
@@ -141,12 +143,25 @@ def ref_slice(sl, fs, f_range, settings, rs):
     return ref.ref_group(sl, fs, f_range, kw, None, rs)
 
 
+def _variant(arr, v):
+    """Other memory layouts / dtypes of the same values (a seeded subset of runs)."""
+    if v == 'fortran':
+        return np.asfortranarray(arr)
+    if v == 'strided':                       # non-contiguous view into a larger buffer
+        base = np.zeros(arr.shape[:-1] + (2 * arr.shape[-1] + 1,))
+        base[..., 1::2] = arr
+        return base[..., 1::2]
+    if v == 'f32':
+        return arr.astype(np.float32)
+    return arr
+
+
 def execute(plan, tape):
     res = Result()
     band = plan['band']
     fs, f_range = band['fs'], tuple(band['f_range'])
     n0, n1 = plan['shape']
-    sigs = np.array([[build_signal(s, band) for s in row] for row in plan['sigs']])
+    sigs = _variant(np.array([[build_signal(s, band) for s in row] for row in plan['sigs']]), plan.get('array_variant'))
     sigs0 = sigs.copy()
     axis = _axis(plan)
     akey = 'axis' + str(plan['axis'])
@@ -403,7 +418,8 @@ def shrink(plan):
                 del p['options']['shared'][k]
                 yield p
     for key, val in (('n_jobs', 1), ('n_jobs', 2), ('progress', None), ('tqdm', 'absent'),
-                     ('return_samples', True), ('prefit', False), ('alias_equal', False)):
+                     ('return_samples', True), ('prefit', False), ('alias_equal', False),
+                     ('array_variant', None)):
         if key in plan and plan[key] != val:
             p = copy.deepcopy(plan)
             p[key] = val
